@@ -24,6 +24,40 @@ import xml as _xml  # noqa: E402
 XML_DIR = os.path.dirname(os.path.abspath(_xml.__file__)) + os.sep
 MAX_STEPS = 3000000
 RARE_LINES = 30
+import sysconfig as _sysconfig  # noqa: E402
+STDLIB_DIR = _sysconfig.get_paths()["stdlib"] + os.sep
+SIM_DIR = os.path.dirname(os.path.abspath(__file__)) + os.sep
+# Pure-Python code of the standard library (and of webencodings / six) that html5lib calls into is pre-emptable as well when the
+# call comes from html5lib: `ChainMap.get`, the Mapping mix-in methods, `re` internals, codecs, minidom ... execute many
+# bytecodes between two lines of html5lib, and a real thread switch can fall between any two of them.  Allow-list, not
+# everything: modules that take C-level locks a parked thread would keep (importlib, threading, logging, queue, io buffers
+# of sockets ...) and modules only the harness's own sources use (http, email, urllib, socket) are left alone.
+LIB_ALLOW_TOP = frozenset([
+    # only modules whose Python-level execution does not depend on what the process did before (no memo of its own that the
+    # cold restart does not reset): `encodings` / `codecs` (search function runs once per codec and process), `re` (compile
+    # cache), `warnings` (once-per-location registry), `functools`, `abc` ... stay untraced
+    "collections", "_collections_abc.py", "copy.py", "string.py", "types.py", "operator.py", "contextlib.py", "xml", "reprlib.py", "numbers.py",
+])
+# ... and within those, not the hooks behind isinstance()/issubclass(): whether they run depends on the ABC caches of the process
+LIB_SKIP_FUNCS = frozenset(["__subclasshook__", "__instancecheck__", "__subclasscheck__", "_check_methods", "register"])
+_lib_file = {}
+
+
+def _lib_file_traced(fn):
+    v = _lib_file.get(fn)
+    if v is None:
+        v = False
+        if fn.startswith(STDLIB_DIR):
+            rel = fn[len(STDLIB_DIR):]
+            if not rel.startswith("site-packages"):
+                v = rel.split(os.sep)[0] in LIB_ALLOW_TOP
+            else:
+                top = rel.split(os.sep)[1] if os.sep in rel else ""
+                v = top in ("webencodings", "six.py")
+        elif (os.sep + "webencodings" + os.sep) in fn or fn.endswith(os.sep + "six.py"):
+            v = True
+        _lib_file[fn] = v
+    return v
 WORKER_WALL_S = 120
 DEBUG_TRACE = None   # set to a list to record every traced step (debugging of the scheduler itself)
 
@@ -263,7 +297,7 @@ class _Worker(object):
 
 
 class Baton(object):
-    def __init__(self, fns, rng=None, quanta=None, p_hot=0.5, p_warm=0.02, p_cold=0.005, opcodes=True, opcodes_all=False, p_sleep=0.0, p_rare=0.0):
+    def __init__(self, fns, rng=None, quanta=None, p_hot=0.5, p_warm=0.02, p_cold=0.005, opcodes=True, opcodes_all=False, p_sleep=0.0, p_rare=0.0, lib=False, weights=None):
         # long suspensions: a thread pre-empted inside a hot function it has entered only a few times in this run (a rarely
         # executed piece of code that touches shared state) may be put to SLEEP while the others make a few hundred to a few
         # ten thousand steps - under uniform random choice at every pre-emption point a thread never stays parked that long;
@@ -277,6 +311,10 @@ class Baton(object):
         self.q_state = None       # ... and when the running thread was last handed the baton
         self.dirty_windows = 0
         self.sleepers = 0         # > 0: some thread may be asleep (upper bound, recomputed by the scheduler)
+        # threads that run at different speeds: the scheduler picks the next thread with probability proportional to its weight
+        self.weights = list(weights) if weights else None
+        self.lib = lib            # are frames of the standard library called from html5lib pre-emptable in this run?
+        self.lib_frames = 0       # frames of the standard library (called from html5lib) that were pre-emptable
         self.lines = {}           # (tid, code) -> line events seen
         self.rare_preemptions = 0
         self.calls = {}           # (tid, code) -> number of frames of that code entered by that thread in this run
@@ -305,10 +343,10 @@ class Baton(object):
         baton = self
         prefix = HTML5LIB_DIR
 
-        def make_local(hot):
+        def make_local(hot, lib=False):
             p = baton.p_hot if hot else baton.p_cold
             p_op = p / 4.0
-            count_ops = hot or baton.opcodes_all
+            count_ops = (hot or baton.opcodes_all) and not lib
 
             def local(frame, event, arg):
                 if DEBUG_TRACE is not None and event in ("line", "opcode"):
@@ -366,6 +404,9 @@ class Baton(object):
             return local
         local_hot = make_local(True)
         local_cold = make_local(False)
+        # (library frames never ask for per-bytecode events: their code objects are shared with the whole process)
+        local_lib_hot = make_local(True, True)
+        local_lib_cold = make_local(False, True)
 
         def budget_only(frame, event, arg):
             # code of the tree libraries html5lib builds on (xml.dom.minidom, xml.etree): no pre-emption there, but its
@@ -382,8 +423,27 @@ class Baton(object):
             if baton.overrun:
                 raise StepBudgetExceeded()
             fn = frame.f_code.co_filename
-            if fn.startswith(XML_DIR):
-                return budget_only
+            if not fn.startswith(prefix):
+                if not baton.lib or not _lib_file_traced(fn) or frame.f_code.co_name in LIB_SKIP_FUNCS:
+                    if fn.startswith(XML_DIR):
+                        return budget_only
+                    return None
+                # library code: traced only when the call comes (through at most 8 library frames) from html5lib, hot if
+                # that html5lib frame is
+                f = frame.f_back
+                for _ in range(8):
+                    if f is None:
+                        return None
+                    ffn = f.f_code.co_filename
+                    if ffn.startswith(prefix):
+                        baton.lib_frames += 1
+                        key = (w.tid, frame.f_code)
+                        baton.calls[key] = baton.calls.get(key, 0) + 1
+                        return local_lib_hot if frame_is_hot(f) else local_lib_cold
+                    if ffn.startswith(SIM_DIR) or not _lib_file_traced(ffn):
+                        return None
+                    f = f.f_back
+                return None
             if fn.startswith(prefix):
                 if baton.replay is None:
                     code = frame.f_code
@@ -539,7 +599,19 @@ class Baton(object):
                     self.sleepers = sum(1 for x in alive if x.sleep_until > self.total_steps)
                 else:
                     awake = alive
-                w = awake[self.rng.randrange(len(awake))] if len(awake) > 1 else awake[0]
+                if len(awake) == 1:
+                    w = awake[0]
+                elif self.weights:
+                    ws = [self.weights[x.tid] if x.tid < len(self.weights) else 1 for x in awake]
+                    r = self.rng.random() * sum(ws)
+                    w = awake[-1]
+                    for x, wt in zip(awake, ws):
+                        r -= wt
+                        if r < 0:
+                            w = x
+                            break
+                else:
+                    w = awake[self.rng.randrange(len(awake))]
             self._cur_steps = 0
             self.q_state = _coldstate.interp_state()
             w.sem.release()
@@ -621,7 +693,34 @@ def gen_case(rng):
             threads.append({"ops": [dict(slow, src={"reads": [], "rest": rng.choice([1, 7])})]})
         rng.shuffle(threads)
         return {"prop": "C12", "stream": "M3", "threads": threads, "cold": rng.random() < 0.5, "sched_seed": rng.getrandbits(48),
-                "p_hot": rng.choice([0.2, 0.05]), "p_cold": rng.choice([0.001, 0.005]), "opcodes": False, "p_sleep": 0.0, "p_rare": 0.0}
+                "p_hot": rng.choice([0.2, 0.05]), "p_cold": rng.choice([0.001, 0.005]), "opcodes": False, "p_sleep": 0.0, "p_rare": 0.0,
+                "lib": rng.random() < 0.3}
+    if rng.random() < 0.08:
+        # a storm of DISTINCT encoding labels in one thread (whatever caches resolved labels fills up, rotates or evicts)
+        # against a burst of short parses in the others
+        import webencodings
+        labels = sorted(webencodings.labels.LABELS)
+        rng.shuffle(labels)
+        storm = []
+        for k, lab in enumerate(labels[:rng.choice([100, 140, 200, 200])]):
+            if rng.random() < 0.5:
+                storm.append({"op": "api_parse_bytes", "hex": (b"<meta charset=" + lab.encode("ascii") + b">").hex(), "args": {}, "builder": "etree"})
+            else:
+                storm.append({"op": "api_parse_bytes", "hex": b"x".hex(), "args": {rng.choice(["override_encoding", "transport_encoding", "likely_encoding"]): lab},
+                              "builder": "etree"})
+        threads = [{"ops": storm}]
+        for _ in range(n_threads - 1):
+            # (as much work as the storm, so that they are still running when the caches have turned over a few times)
+            threads.append({"ops": [{"op": "api_parse", "doc": [rng.choice(["x", "y", "&amp;"])], "builder": "etree", "ns": True,
+                                     "reuse": rng.random() < 0.5} for _k in range(rng.choice([100, 150, 220]))]})
+        order = list(range(len(threads)))
+        rng.shuffle(order)
+        threads = [threads[k] for k in order]
+        fast = rng.choice([3, 10, 30])          # the storm runs that much faster than the others
+        weights = [fast if k == 0 else 1 for k in order]
+        return {"prop": "C12", "stream": "M3", "threads": threads, "cold": rng.random() < 0.5, "sched_seed": rng.getrandbits(48),
+                "p_hot": rng.choice([0.5, 0.2]), "p_cold": rng.choice([0.001, 0.005]), "opcodes": False, "p_sleep": 0.0,
+                "p_rare": rng.choice([0.0, 0.1]), "lib": True, "weights": weights}
     if rng.random() < 0.08:
         # every thread works on a document that runs into one of the interpreter's limits
         for _ in range(n_threads):
@@ -691,7 +790,11 @@ def gen_case(rng):
             # long suspensions inside rarely executed hot code (see Baton.__init__)
             "p_sleep": rng.choice([0.0, 0.0, 0.4, 0.8]),
             # the first lines of every function a thread executes are pre-empted with this probability even in cold frames
-            "p_rare": rng.choice([0.0, 0.03, 0.1, 0.3])}
+            "p_rare": rng.choice([0.0, 0.03, 0.1, 0.3]),
+            # ... and in a third of the runs the pure-Python standard library code that html5lib calls into is pre-emptable too
+            "lib": rng.random() < 0.33,
+            # threads of different speed in a third of the runs
+            "weights": [rng.choice([1, 1, 3, 10]) for _ in range(n_threads)] if rng.random() < 0.33 else None}
 
 
 def _api_tb(builder):
@@ -886,10 +989,10 @@ def execute(case):
         if not case["cold"]:
             warm_up()
     if case.get("quanta") is not None:
-        b = Baton(fns, quanta=[tuple(q) for q in case["quanta"]], opcodes=opcodes, opcodes_all=opcodes_all)
+        b = Baton(fns, quanta=[tuple(q) for q in case["quanta"]], opcodes=opcodes, opcodes_all=opcodes_all, lib=bool(case.get("lib")))
     else:
         b = Baton(fns, rng=random.Random(case["sched_seed"]), p_hot=case.get("p_hot", 0.5), p_cold=case.get("p_cold", 0.005),
-                  opcodes=opcodes, opcodes_all=opcodes_all, p_sleep=case.get("p_sleep", 0.0), p_rare=case.get("p_rare", 0.0))
+                  opcodes=opcodes, opcodes_all=opcodes_all, p_sleep=case.get("p_sleep", 0.0), p_rare=case.get("p_rare", 0.0), lib=bool(case.get("lib")), weights=case.get("weights"))
     results, errors = b.run()
     res["quanta"] = [list(q) for q in b.taken]
     res["_case"] = case
@@ -906,6 +1009,8 @@ def execute(case):
     if b.dirty_windows:
         P["parked_with_interpreter_setting_changed"] += b.dirty_windows
         stats["faults"]["thread_parked_with_interpreter_setting_changed"] = b.dirty_windows
+    if b.lib_frames:
+        P["preemptable_standard_library_frames"] += b.lib_frames
     if b.rare_preemptions:
         P["preemptions_in_rarely_executed_cold_code"] += b.rare_preemptions
         stats["faults"]["preemption_in_rarely_executed_code"] = b.rare_preemptions
